@@ -75,6 +75,9 @@ def judge(res, scenario, fail, panic_at):
         if d["kind"] == "run" and d["detach"]:
             x = d["name"]
             rms = [j for j, r in enumerate(dec) if r["kind"] == "rm" and x in r["names"]]
+            if f"{i + 1}!" in fail and not rms:
+                # rejected at create time: no container exists, a removal is not required
+                continue
             if len(rms) != 1:
                 v.append(("container-removed-%d-times" % len(rms), f"container {x} started detached (invocation {i + 1}) has {len(rms)} removals"))
                 continue
@@ -186,7 +189,7 @@ def packaging_scenarios(ctx, res):
         out = list(ex.map(run_packaging, args))
     by_id = {"verif/a": "verif_a", "verif/b": "verif_b", "verif/meta": "verif_meta"}
     for (sc, fail), r in zip(jobs, out):
-        dev = "no fault" if not fail and sc.get("panic_at") is None else (f"external command #{fail[0]} fails" if fail else f"closure panics before step {sc['panic_at']}")
+        dev = "no fault" if not fail and sc.get("panic_at") is None else (f"external command #{fail[0]} fails{' at create time (no container)' if isinstance(fail[0], str) else ''}" if fail else f"closure panics before step {sc['panic_at']}")
         label = f"packaging build {sc['root']['cfg']['buildpacks']} [{sc['root']['cfg']['expected']}] with {dev}"
         for sig, what in judge(r, sc, fail, sc.get("panic_at")):
             res.violation("packaging:" + sig, f"{label}: {what}", {"scenario": sc, "fail": fail, "packaging": True})
@@ -281,6 +284,10 @@ def run(ctx):
     for sc, r in zip(scenarios, base):
         for k in range(1, len(r["log"]) + 1):
             fault_jobs.append((sc, [k]))
+            e = r["log"][k - 1]
+            if e["prog"] == "docker" and e["argv"][:1] == ["run"]:
+                # the same failure, but at create time: the container does not exist afterwards
+                fault_jobs.append((sc, [f"{k}!"]))
         for t in range(ticks(sc["root"]["body"])):
             fault_jobs.append((dict(sc, panic_at=t), []))
     with ProcessPoolExecutor(max_workers=16) as ex:
@@ -291,7 +298,7 @@ def run(ctx):
         n += 1
         outcomes.add(f"{r['outcome']}:{len(r['log'])}")
         for sig, what in judge(r, sc, fail, sc.get("panic_at")):
-            dev = "no fault" if not fail and sc.get("panic_at") is None else (f"external command #{fail[0]} fails" if fail else f"closure panics before step {sc['panic_at']}")
+            dev = "no fault" if not fail and sc.get("panic_at") is None else (f"external command #{fail[0]} fails{' at create time (no container)' if isinstance(fail[0], str) else ''}" if fail else f"closure panics before step {sc['panic_at']}")
             res.violation(sig, f"{describe(sc)} with {dev}: {what}", {"scenario": sc, "fail": fail})
     # packaging scenarios: buildpack references that are packaged into a temporary directory by the
     # real libcnb-package code (real cargo, generated workspace); the temporary buildpack directory
